@@ -9,6 +9,7 @@
 #include <cstring>
 #include <string>
 #include <vector>
+#include <sys/mman.h>
 #include "vh.hpp"
 
 namespace c08 {
@@ -69,5 +70,35 @@ inline void judge(const arena& A, long w0, long w1, const std::string& what, con
     if (c & 2) vh::viol(vh::cat("clobber.", what, ".", type), vh::cat(witness, " changed bits outside its own:", d));
     if (c & 1) vh::viol(vh::cat("stored.", what, ".", type), vh::cat(witness, " left wrong bits inside its own range:", d));
 }
+
+// A block of exactly n accessible bytes whose end is flush against inaccessible memory, so that an out-of-range *read*
+// is seen as well (the arena comparison only sees writes): under ASan an exact-size heap allocation (red zones on both
+// sides), natively the tail of a mapping followed by a PROT_NONE page (SIGSEGV on the first byte behind the block).
+struct tight_block {
+    byte* p; size_t n;
+    void* map; size_t maplen;
+    explicit tight_block(size_t n_) : p(nullptr), n(n_ ? n_ : 1), map(nullptr), maplen(0) {
+#if defined(__SANITIZE_ADDRESS__)
+        p = new byte[n];
+#else
+        const size_t pg = 4096, data = (n + pg - 1) / pg * pg;
+        maplen = data + pg;
+        map = mmap(nullptr, maplen, PROT_READ | PROT_WRITE, MAP_PRIVATE | MAP_ANONYMOUS, -1, 0);
+        if (map == MAP_FAILED) vh::fatal_monitor("harness.mmap", "tight_block: mmap failed");
+        mprotect((char*)map + data, pg, PROT_NONE);
+        p = (byte*)map + data - n;
+#endif
+    }
+    ~tight_block() {
+#if defined(__SANITIZE_ADDRESS__)
+        delete[] p;
+#else
+        munmap(map, maplen);
+#endif
+    }
+    tight_block(const tight_block&) = delete;
+    tight_block& operator=(const tight_block&) = delete;
+    void fill(vh::rng& r) { for (size_t i = 0; i < n; ++i) p[i] = (byte)r.next(); }
+};
 
 } // namespace c08
